@@ -14,6 +14,7 @@ package main
 import (
 	"bytes"
 	"fmt"
+	"math/big"
 	"strings"
 
 	logger "github.com/ElrondNetwork/elrond-go-logger"
@@ -51,6 +52,21 @@ func main() {
 		u := acctmodel.NewUniverse(rng, rng.Range(3, 8), rng.Range(2, 4), 3)
 		w := acctmodel.NewWorld(env, u)
 		wt := acctmodel.CodeHeavyWeights()
+		// handle mode (a quarter of the cases): account handles are kept across other operations, reverts and
+		// commits and are saved later with a new code, i.e. through a handle whose own fields are stale
+		// with respect to the trie (two handles of one account saved in turn, a handle saved again after
+		// its first save was reverted, a handle of an account that was removed meanwhile). No storage is
+		// used in these cases, so a stale handle never carries a stale data trie.
+		handleMode := c.Idx%4 == 3
+		if handleMode {
+			wt.Storage = 0
+			r.Count("handle_mode_cases", 1)
+		}
+		type pooled struct {
+			addr []byte
+			h    state.UserAccountHandler
+		}
+		var pool []pooled
 		hashes := make([][]byte, len(u.Codes))
 		for i, cd := range u.Codes {
 			hashes[i] = env.Hasher.Compute(string(cd))
@@ -203,8 +219,76 @@ func main() {
 
 		var stack []*acctmodel.Snapshot
 		steps := rng.Range(15, 60)
+		// syncModel copies the real account into the model after a save through a stale handle (the C07
+		// oracle counts referrers from the real accounts; the model only steers the generator)
+		syncModel := func(addr []byte) {
+			acc, errA := env.ADB.GetExistingAccount(addr)
+			if errA != nil {
+				delete(w.Model.Accounts, string(addr))
+				return
+			}
+			ua, ok := acc.(state.UserAccountHandler)
+			if !ok {
+				return
+			}
+			m := &acctmodel.Account{Balance: new(big.Int).Set(ua.GetBalance()), Nonce: ua.GetNonce(),
+				Owner: append([]byte{}, ua.GetOwnerAddress()...), CodeMetadata: append([]byte{}, ua.GetCodeMetadata()...),
+				UserName: append([]byte{}, ua.GetUserName()...), Storage: map[string][]byte{}}
+			if len(ua.GetCodeHash()) > 0 {
+				m.Code = append([]byte{}, env.ADB.GetCode(ua.GetCodeHash())...)
+			}
+			w.Model.Accounts[string(addr)] = m
+		}
 		for s := 0; s < steps; s++ {
 			x := rng.Intn(100)
+			if handleMode && rng.Chance(40, 100) {
+				if len(pool) < 2 || (len(pool) < 6 && rng.Chance(1, 3)) {
+					// take (and keep) a handle; favour an address that already has a pooled handle
+					addr := u.Addrs[rng.Intn(len(u.Addrs))]
+					if len(pool) > 0 && rng.Chance(1, 2) {
+						addr = pool[rng.Intn(len(pool))].addr
+					}
+					h, errL := env.ADB.LoadAccount(append([]byte{}, addr...))
+					if errL != nil {
+						continue
+					}
+					if ua, ok := h.(state.UserAccountHandler); ok {
+						pool = append(pool, pooled{addr: addr, h: ua})
+						r.Count("handles_taken", 1)
+						w.Note("H%d := LoadAccount(%x..)", len(pool)-1, addr[:2])
+					}
+					continue
+				}
+				i := rng.Intn(len(pool))
+				pc := pool[i]
+				var code []byte
+				ci := -1
+				if !rng.Chance(1, 6) {
+					ci = rng.Intn(len(u.Codes))
+					code = append([]byte{}, u.Codes[ci]...)
+				}
+				jl := env.ADB.JournalLen()
+				pc.h.SetCode(code)
+				errS := env.ADB.SaveAccount(pc.h)
+				r.Count("saves_through_kept_handle", 1)
+				w.Note("H%d.SetCode(C%d); SaveAccount(H%d) -> %v", i, ci, i, errS)
+				last = "save-through-kept-handle"
+				if errS != nil {
+					last = "failed-" + last + "+revert"
+					if errV := env.ADB.RevertToSnapshot(jl); errV != nil {
+						r.Violation(c.Idx, "revert-error-after-failed-op", fmt.Sprintf("SaveAccount through a kept handle failed (%v), RevertToSnapshot(%d): %v", errS, jl, errV), detail(nil))
+						return
+					}
+					if jl == 0 {
+						stack = nil
+					}
+				}
+				syncModel(pc.addr)
+				if !stepCheck() {
+					return
+				}
+				continue
+			}
 			switch {
 			case x < 60:
 				op := w.RandomOp(rng, wt)
